@@ -452,23 +452,30 @@ void run_c09_enum() {
     const osmium::io::file_compression comp = gzip ? osmium::io::file_compression::gzip : osmium::io::file_compression::bzip2;
     const std::string kind = std::string{gzip ? "gzip" : "bzip2"} + (from_buffer ? "/buffer" : "/fd");
     const std::string path = std::string{"/sim/c09e."} + (gzip ? "gz" : "bz2");
-    const uint32_t nstreams = 1 + choose(S_WORK, 3);
+    // "big": one or two streams whose decompressed size lies around multiples of the decompressors' 10240-byte output
+    // piece (truncations only): a cut after which the available input decodes to exactly k full output pieces is a
+    // boundary of its own. Stored (level 0) and poorly compressible data make such cuts frequent.
+    const bool big = choose(S_WORK, 6) == 0;
+    const uint32_t nstreams = big ? 1 + choose(S_WORK, 2) : 1 + choose(S_WORK, 3);
+    static const int levels[] = {0, 1, 6, 9};
     std::string payload, file;
     std::vector<size_t> boundaries, payload_at_boundary;
     for (uint32_t i = 0; i < nstreams; ++i) {
-        const std::string p = gen_payload(choose(S_WORK, 4) == 0 ? 0 : 1 + choose(S_WORK, 120));
-        file += gzip ? gz_member(p, 6) : bz_stream(p, 1);
+        const size_t big_size = 10240 * (1 + choose(S_WORK, 2)) + choose(S_WORK, 7) - 3 + (choose(S_WORK, 2) ? 0 : choose(S_WORK, 3000));
+        const std::string p = gen_payload(big ? big_size : (choose(S_WORK, 4) == 0 ? 0 : 1 + choose(S_WORK, 120)));
+        file += gzip ? gz_member(p, big ? levels[choose(S_WORK, 4)] : 6) : bz_stream(p, 1);
         payload += p;
         boundaries.push_back(file.size());
         payload_at_boundary.push_back(payload.size());
     }
     static const unsigned long bufsizes[] = {0, 4096, 100, 17, 3, 1};
-    const unsigned long bs = bufsizes[choose(sim::S_IO, 6)];
+    const unsigned long bs = bufsizes[choose(sim::S_IO, big ? 2 : 6)];
     simfs::Soft soft;
     if (!from_buffer && choose(sim::S_IO, 2)) {
         static const size_t fixed[] = {1, 7, 100};
         soft.chunk_mode = 1;
         soft.chunk = fixed[choose(sim::S_IO, 3)];
+        if (big) { soft.chunk = 1000 + soft.chunk; } // bounded number of read(2) calls per truncation point
     }
     sim::RunConfig cfg;
     cfg.preemptive = false;
@@ -509,7 +516,7 @@ void run_c09_enum() {
     }
     // single byte corruptions
     static const unsigned char masks[] = {0x01, 0x80, 0xff};
-    for (size_t pos = 0; pos < file.size(); ++pos) {
+    for (size_t pos = 0; pos < (big ? 0 : file.size()); ++pos) {
         for (unsigned char m : masks) {
             std::string f = file;
             f[pos] = static_cast<char>(static_cast<unsigned char>(f[pos]) ^ m);
@@ -541,6 +548,7 @@ void run_c09_enum() {
     sim::clear_values();
     simfs::set_soft(simfs::Soft{});
     sim::probe("enumerated fault points", cases);
+    if (big) { sim::probe("enumerated every truncation of a file decompressing to more than one 10240-byte output piece"); }
     sim::probe("truncation detected", trunc_detected);
     sim::probe("corruption detected", corrupt_detected);
     sim::probe("corruption in don't-care bits", corrupt_dontcare);
